@@ -43,6 +43,20 @@ func ResolveDir(dest string) string {
 	return dest
 }
 
+// Move renames source to dest. A symbolic link is not carried over as it is
+// (a relative one would dangle at its new place, or point at some other
+// file there): what it leads to is copied, as Copy would, and the link
+// removed.
+func Move(source, dest string) error {
+	if info, err := os.Lstat(source); err == nil && info.Mode()&os.ModeSymlink != 0 {
+		if err := Copy(source, dest); err != nil {
+			return err
+		}
+		return os.Remove(source)
+	}
+	return os.Rename(source, dest)
+}
+
 func Copy(source, dest string) error {
 	in, err := os.Open(source)
 	if err != nil {
